@@ -12,7 +12,9 @@ Init == l = 0
 Next == l < Len(Trace) /\ l' = l + 1
 Spec == Init /\ [][Next]_l
 
-RootText == JoinSlash(Root)
+(* the name under which the reader is asked for file f: the universe's files live at               *)
+(* https://root.example/ when the root was loaded from there                                       *)
+ReadName(entry, f) == IF entry = "uri_remote" /\ ~IsRemote(f) THEN "https://root.example/" \o JoinSlash(f) ELSE JoinSlash(f)
 AllRefs(u) == {u.use.ref}
               \cup UNION {IF IsConcrete(u.slots[i].c) THEN {u.slots[i].c.ch[j].ref : j \in DOMAIN u.slots[i].c.ch}
                           ELSE {u.slots[i].c.ref} : i \in DOMAIN u.slots}
@@ -23,15 +25,26 @@ Followed(u, s) ==     \* a site that points into another location and was nevert
    rs # {} /\ s.owner \in KnownIds(u) /\ s.got # "nil"
    /\ LET r == CHOOSE x \in rs : TRUE IN TargetFile(FileOfId(u, s.owner), r) # FileOfId(u, s.owner)
 
+(* no host named h.example is served by anything in the run: a reference into it can be left      *)
+(* unresolved or fail the load, but it can never come back with an object (least of all one read  *)
+(* from the local file whose path the URL happens to carry)                                       *)
+RemoteSatisfied(u, s) ==
+   LET rs == {r \in AllRefs(u) : RefText(r) = s.ref} IN
+   rs # {} /\ s.owner \in KnownIds(u) /\ s.got # "nil"
+   /\ LET r == CHOOSE x \in rs : TRUE IN IsRemote(TargetFile(FileOfId(u, s.owner), r))
+
 Failed(line) ==
    LET u == line.c.u
        reads == {line.reads[i] : i \in DOMAIN line.reads}
-       allowed == {JoinSlash(f) : f \in AllowedReads(u)} IN
+       RootText == ReadName(line.c.entry, Root)
+       allowed == {ReadName(line.c.entry, f) : f \in AllowedReads(u)} IN
    (IF line.load \in {"panic", "crash", "hang"} THEN {"no_panic"} ELSE {})
    \cup (IF ~line.c.allow /\ ~(reads \subseteq {RootText}) THEN {"reads_only_root_when_disallowed"} ELSE {})
    \cup (IF line.c.allow /\ ~(reads \subseteq allowed) THEN {"reads_only_ref_derived_locations"} ELSE {})
    \cup (IF ~line.c.allow /\ line.load = "ok" /\ \E i \in DOMAIN line.sites : Followed(u, line.sites[i])
          THEN {"external_ref_never_followed_when_disallowed"} ELSE {})
+   \cup (IF line.load = "ok" /\ \E i \in DOMAIN line.sites : RemoteSatisfied(u, line.sites[i])
+         THEN {"location_on_an_unserved_host_never_satisfied"} ELSE {})
 
 LineOK(line) ==
    LET bad == Failed(line) IN
